@@ -422,3 +422,51 @@ Theorem C01_source_row_log2 : forall (exp2 log2 : Q -> Q),
             (Proofs.FnCallRowClass.gen_y_mask build (y_label first) chrom lo hi))
     == rescaled a k (shifted hapx (row_class build first chrom lo hi)).
 Proof. exact Proofs.FnCallRowClass.source_row_log2. Qed.
+
+(* ---- [loop ties e1] source tie of the argument checks in front of the calling code.  do_call's first statement
+   `if method not in ("threshold", "clonal", "none"): raise ValueError` (Gen/FnCallGuards.v fn_method_rejected: its test,
+   regenerated from the Python source on every run): the accepted methods are exactly the three values of call_method
+   under the names the entry point decodes and the dispatch compares with ... *)
+From CNV Require Gen.FnCallGuards Proofs.FnCallGuards Entries.C02.
+Theorem C01_source_method_guard : forall m : string,
+  (Gen.FnCallGuards.fn_method_rejected m = false <-> exists cm, m = Proofs.FnCallGuards.method_name cm) /\
+  (Gen.FnCallGuards.fn_method_rejected m = true <-> Entries.C02.method_of m = None) /\
+  (forall cm, Entries.C02.method_of (Proofs.FnCallGuards.method_name cm) = Some cm).
+Proof. exact Proofs.FnCallGuards.source_method_guard. Qed.
+
+(* ... and the `call` command's `if args.purity and not 0.0 < args.purity <= 1.0: raise RuntimeError` (cnvlib/commands.py
+   _cmd_call; Gen/FnCallCmdGuards.v fn_purity_rejected): the purities let through are exactly `valid_purity` -- the premise
+   of C01_cn_exact -- plus 0, which is read as "no purity"; the sample's sex is looked up (fn_cmd_sample_sex) exactly on
+   the purity-adjusted path *)
+From CNV Require Gen.FnCallCmdGuards Proofs.FnCallCmdGuards.
+Theorem C01_source_purity_guard : forall purity : option Q,
+  Gen.FnCallCmdGuards.fn_purity_rejected purity = false <->
+  (valid_purity purity \/ exists p, purity = Some p /\ p == 0).
+Proof. exact Proofs.FnCallCmdGuards.source_purity_guard. Qed.
+
+Theorem C01_source_cmd_sample_sex : forall (purity : option Q) (verified : option bool),
+  Gen.FnCallCmdGuards.fn_cmd_sample_sex purity verified
+  = match use_purity purity with Some _ => verified | None => None end.
+Proof. exact Proofs.FnCallCmdGuards.source_cmd_sample_sex. Qed.
+
+(* ---- [loop ties e1] do_call's row composed from the generated pieces: on a row with a finite log2, for the methods
+   "threshold" and "clonal", do_call_row IS the generated dispatch (fn_dispatch) followed by the generated cn / allelic
+   statement (fn_finish), the results of the called functions supplied by the model functions tied to them *)
+From CNV Require Proofs.FnCallDoCallRow.
+Theorem C01_source_do_call_row : forall m k purity hapx female build ts variants with_baf first row v toks,
+  m <> MNone -> d_log2 row = Some v ->
+  let cl := row_class build first (d_chrom row) (d_lo row) (d_hi row) in
+  let pp := match use_purity purity with Some p => p | None => 1 end in
+  let op := call_row_purity k pp hapx female cl (d_e row) in
+  let '(v1, e1) := dc_seen purity row in
+  let '(a, l', b') :=
+     Gen.FnCallDispatch.fn_dispatch purity (Proofs.FnCallGuards.method_name m) variants (d_log2 row) (d_baf row)
+       (abs_of op) (Some (d_v2 row)) (rescale_baf pp (d_baf row))
+       (abs_of (call_row_pure k hapx (d_chrom row) (d_e row)))
+       (inject_Z (thr_cn v1 e1 ts k (ref_pure (d_chrom row) k hapx))) toks in
+  let has_baf := with_baf || variants in
+  let '(cn, c1, c2) := Gen.FnCallFinish.fn_finish (Proofs.FnCallGuards.method_name m) a has_baf b' in
+  do_call_row m k purity hapx female build ts variants with_baf first row
+  = Some (mk_dc_out (match use_purity purity with Some _ => ratio_of op | None => None end)
+                    l' (Some a) (Some cn) (if has_baf then b' else None) (if has_baf then Some (c1, c2) else None)).
+Proof. exact Proofs.FnCallDoCallRow.source_do_call_row. Qed.
